@@ -20,6 +20,8 @@ COMPILER_REPLAYS = {
     "u_tylower": ["replay/c11/pair_callback.sh"],
     "u_tygate": ["replay/c16/trait_sig_imports.sh"],
     "u_closty": ["replay/c08/returned_fn.sh"],
+    "u_validty": ["replay/c04/fn_result_arity.sh"],
+    "u_gotypedoc": ["replay/c02/second_order.sh"],
     "u_anf": ["replay/c09/anf_order.sh"],
     "u_diagord": ["replay/c13/missing_methods/run.sh", "replay/c13/unknown_fields/run.sh"],
     "u_occurs": ["replay/c04/occurs/run.sh"],
